@@ -78,13 +78,19 @@ def pCon : List String → Option (Option (Interval Float) × List String)
     | _, _ => none
   | _ => none
 
-def pNamed : Nat → List String → Option (List (Nat × Float × Option (Interval Float)) × List String)
+/-- an optional `P <precision>` after a constraint -/
+def pPrec : List String → Float × List String
+  | "P" :: h :: r => ((pF h).getD 0, r)
+  | r => (0, r)
+
+def pNamed : Nat → List String → Option (List (Nat × Float × Option (Interval Float) × Float) × List String)
   | 0, r => some ([], r)
   | k + 1, ix :: v :: r =>
     match nat? ix, pF v, pCon r with
     | some ix, some v, some (c, r') =>
-      match pNamed k r' with
-      | some (l, r'') => some ((ix, v, c) :: l, r'')
+      let (prec, r1) := pPrec r'
+      match pNamed k r1 with
+      | some (l, r'') => some ((ix, v, c, prec) :: l, r'')
       | none => none
     | _, _, _ => none
   | _, _ => none
@@ -213,8 +219,8 @@ def stateStr (c : Core Float) (fn : FnF) : String :=
   " cur=" ++ canon c.cur ++ " n=" ++ toString c.nbEval ++ " t=" ++ showBool c.tol
   ++ " P" ++ vs (values c.params) ++ " F" ++ vs fn.point ++ logStr fn
 
-def mkParams (l : List (Nat × Float × Option (Interval Float))) : PList Float :=
-  l.map (fun t => ⟨t.1, ⟨t.2.1, 0, t.2.2, false⟩⟩)
+def mkParams (l : List (Nat × Float × Option (Interval Float) × Float)) : PList Float :=
+  l.map (fun t => ⟨t.1, ⟨t.2.1, t.2.2.2, t.2.2.1, false⟩⟩)
 
 /-- the freshly constructed optimiser of the script's `opt` line (constructor defaults of each class) -/
 def mkOpt (s : S) : OptSt :=
@@ -543,7 +549,7 @@ def step (s : S) (op : List String) (impl : Option (List String)) : S × String 
         -- the starting point: the function's point with the values of the list written into it (the
         -- meta-optimiser starts from the function's own point: its doInit reads the values back)
         let start := if s.kind == "meta" then s.obj s.fpoint else s.obj (writeInto s.fpoint names (l.map (·.2.1)))
-        let s0 := { s with names := names, cons := l.map (fun t => (t.1, t.2.2)), startVal := some start, curInit := none, inactive := true }
+        let s0 := { s with names := names, cons := l.map (fun t => (t.1, t.2.2.1)), startVal := some start, curInit := none, inactive := true }
         let (s1, out) : S × String :=
           if s0.modelDead || !modelled s0.opt then (s0, "-") else answer s0 (runInit s0 pl)
         match impl with
